@@ -142,21 +142,19 @@ Qed.
 
 (* ------------------------------------------------------------------------------------------ one call *)
 
-Lemma persist_length : forall sp tr p, length sp = length tr ->
-  length (snd (persist_pixel sp tr p)) = length tr.
+Lemma persist_raw_length : forall sp tr p, length sp = length tr ->
+  length (snd (persist_pixel_raw sp tr p)) = length tr.
 Proof.
-  intros sp tr p H. unfold persist_pixel.
+  intros sp tr p H. unfold persist_pixel_raw.
   pose proof (trap_loop_length sp tr p H) as L.
   destruct (trap_loop sp tr p) as [p1 t1]. simpl in L.
   rewrite clip_loop_length; [exact L | congruence].
 Qed.
 
-(* EXACT conservation for any number of species and ANY parameters: returned pixel + returned trapped charge
-   = pixel + trapped charge before the call *)
-Lemma persist_conserves : forall sp tr p, length sp = length tr ->
-  fst (persist_pixel sp tr p) + qsum (snd (persist_pixel sp tr p)) == p + qsum tr.
+Lemma persist_raw_conserves : forall sp tr p, length sp = length tr ->
+  fst (persist_pixel_raw sp tr p) + qsum (snd (persist_pixel_raw sp tr p)) == p + qsum tr.
 Proof.
-  intros sp tr p H. unfold persist_pixel.
+  intros sp tr p H. unfold persist_pixel_raw.
   pose proof (trap_loop_conserves sp tr p H) as C.
   pose proof (trap_loop_length sp tr p H) as L.
   destruct (trap_loop sp tr p) as [p1 t1]. simpl in C, L.
@@ -164,13 +162,47 @@ Proof.
   pose proof (clip_loop_conserves sp t1 p1 (p1 - p) p1 H1). lra.
 Qed.
 
-Lemma persist_nonneg : forall sp tr p, Forall species_okP sp -> nonneg tr -> 0 <= p ->
-  0 <= fst (persist_pixel sp tr p) /\ nonneg (snd (persist_pixel sp tr p)).
+Lemma persist_raw_nonneg : forall sp tr p, Forall species_okP sp -> nonneg tr -> 0 <= p ->
+  0 <= fst (persist_pixel_raw sp tr p) /\ nonneg (snd (persist_pixel_raw sp tr p)).
 Proof.
-  intros sp tr p Hs Ht Hp. unfold persist_pixel.
+  intros sp tr p Hs Ht Hp. unfold persist_pixel_raw.
   pose proof (trap_loop_nonneg sp tr p Hs Ht Hp) as [A B].
   destruct (trap_loop sp tr p) as [p1 t1]. simpl in A, B.
   apply clip_loop_nonneg; assumption.
+Qed.
+
+(* lowest terms: same numbers *)
+Lemma qsum_map_Qred : forall l, qsum (map Qred l) == qsum l.
+Proof. induction l as [|x l IH]; simpl; [reflexivity|]. rewrite Qred_correct, IH. reflexivity. Qed.
+
+Lemma nonneg_map_Qred : forall l, nonneg l -> nonneg (map Qred l).
+Proof. induction 1; simpl; constructor; [rewrite Qred_correct; assumption | assumption]. Qed.
+
+Lemma persist_pixel_unfold : forall sp tr p,
+  persist_pixel sp tr p = (Qred (fst (persist_pixel_raw sp tr p)), map Qred (snd (persist_pixel_raw sp tr p))).
+Proof. intros. unfold persist_pixel. destruct (persist_pixel_raw sp tr p); reflexivity. Qed.
+
+Lemma persist_length : forall sp tr p, length sp = length tr ->
+  length (snd (persist_pixel sp tr p)) = length tr.
+Proof.
+  intros sp tr p H. rewrite persist_pixel_unfold. cbn [snd]. rewrite map_length. apply persist_raw_length; exact H.
+Qed.
+
+(* EXACT conservation for any number of species and ANY parameters: returned pixel + returned trapped charge
+   = pixel + trapped charge before the call *)
+Lemma persist_conserves : forall sp tr p, length sp = length tr ->
+  fst (persist_pixel sp tr p) + qsum (snd (persist_pixel sp tr p)) == p + qsum tr.
+Proof.
+  intros sp tr p H. rewrite persist_pixel_unfold. cbn [fst snd].
+  rewrite Qred_correct, qsum_map_Qred. apply persist_raw_conserves; exact H.
+Qed.
+
+Lemma persist_nonneg : forall sp tr p, Forall species_okP sp -> nonneg tr -> 0 <= p ->
+  0 <= fst (persist_pixel sp tr p) /\ nonneg (snd (persist_pixel sp tr p)).
+Proof.
+  intros sp tr p Hs Ht Hp. rewrite persist_pixel_unfold. cbn [fst snd].
+  destruct (persist_raw_nonneg sp tr p Hs Ht Hp) as [A B].
+  split; [rewrite Qred_correct; exact A | apply nonneg_map_Qred; exact B].
 Qed.
 
 (* ------------------------------------------------------------------------------------------ several calls *)
